@@ -122,7 +122,7 @@ def make_jobs(ctx, sc):
     return jobs
 
 
-def native_run(ctx, sc, nd, tag):
+def native_run(ctx, sc, nd, tag, env_extra=None):
     out_c, _ = gen_c(ctx, sc)
     exe = ctx.path('replay', tag + '.exe')
     rc, o, e, w, _ = vf.run(['gcc', '-O0', '-g', '-w', '-DVF_NATIVE', '-I', RT] + ['-D%s' % d for d in sc.cdefs(False)] + ['-o', exe, out_c], timeout=300)
@@ -130,7 +130,7 @@ def native_run(ctx, sc, nd, tag):
         return 'builderror', e[-800:]
     tr = ctx.path('replay', tag + '.trace')
     open(tr, 'w').write('\n'.join(str(v) for v in nd) + '\n')
-    rc, o, e, w, _ = vf.run([exe], timeout=120, env=dict(os.environ, VF_TRACE=tr))
+    rc, o, e, w, _ = vf.run([exe], timeout=120, env=dict(os.environ, VF_TRACE=tr, **(env_extra or {})))
     tail = (o + e)[-600:]
     if rc is None:
         return 'timeout', tail
